@@ -515,3 +515,88 @@ _base_scn_tr = scenarios
 
 def scenarios():
     return _base_scn_tr() + [trust_signature(), revocation_key_parse()]
+
+
+def option_collection_is_copied(cls, setter, kind):
+    """A preference list / flag set the caller hands to sign(), certify() or add_uid() (hashes=, ciphers=, compression=, usage=, ...) reaches
+    the subpacket through this setter. The hashed area of a signature that has not been re-read is written from the live subpacket objects,
+    while the signature integers were computed once: what the subpacket holds must be its OWN collection with the caller's elements, so
+    that nothing the caller does to its list or set afterwards changes what is exported."""
+    label = 'C02/subpackets.%s.%s[%s given by the caller]' % (cls, setter, kind)
+
+    def gen(repo):
+        r = scn.Run(repo, SP + cls, setter, label)
+        ex, st = r.ex, r.st
+        A, Bv, C = z3.Ints('pref_a pref_b pref_c')
+        elems = [E.VInt(A), E.VInt(Bv), E.VInt(C)]
+        if kind == 'list':
+            val = ex.new_list(st, elems)
+        elif kind == 'tuple':
+            val = E.VTuple(elems) if hasattr(E, 'VTuple') else None
+        else:
+            val = E.VSet(elems)
+        r.set('sp', '_flags', ex.new_list(st, []) if cls == 'FlagList' else E.VSet([]))
+        for pi, (s, v) in enumerate(r.call(E.VObj(SP + cls, 'sp'), [val])):
+            if isinstance(v, E.Raise):
+                r.oblige(s, 'safety(%s)/p%d' % (v.exc, pi), z3.BoolVal(False), v.where)
+                continue
+            held = s.heap.get(('sp', '_flags'))
+            if cls == 'FlagList':
+                ok = isinstance(held, E.VList)
+                r.oblige(s, 'holds-a-list/p%d' % pi, z3.BoolVal(ok))
+                if not ok:
+                    continue
+                r.oblige(s, 'the-list-held-is-not-the-caller\'s-object/p%d' % pi, z3.BoolVal(not (isinstance(val, E.VList) and held.cell == val.cell)))
+                items = list(s.heap[held.cell])
+                r.oblige(s, 'same-elements-in-the-caller\'s-order/p%d' % pi, z3.BoolVal(len(items) == 3 and all(x is y for x, y in zip(items, elems))))
+                if isinstance(val, E.VList):
+                    r.oblige(s, 'caller\'s-list-untouched/p%d' % pi, z3.BoolVal(tuple(s.heap[val.cell]) == tuple(elems)))
+            else:
+                ok = isinstance(held, E.VSet)
+                r.oblige(s, 'holds-a-set/p%d' % pi, z3.BoolVal(ok))
+                if not ok:
+                    continue
+                r.oblige(s, 'the-set-held-is-not-the-caller\'s-object/p%d' % pi, z3.BoolVal(not (isinstance(val, E.VSet) and held.key == val.key)))
+                hv = held.view(s)
+                r.oblige(s, 'same-elements/p%d' % pi, z3.BoolVal(len(hv.items) == 3 and all(any(x is y for y in elems) for x in hv.items) and not hv.conds))
+        return r.result()
+    return Scenario(label, SP + cls + '.' + setter, gen, props=('C02', 'C14', 'C05'))
+
+
+def notation_value_is_copied(readable):
+    """NotationData.value_bytearray: a binary notation value (notation={name: bytearray}) is held in a buffer of the subpacket's own; a
+    human-readable one becomes text. Either way nothing the caller does to its bytearray afterwards reaches the signature."""
+    label = 'C02/subpackets.NotationData.value_bytearray[%s]' % ('human-readable' if readable else 'binary value given by the caller')
+    cls = SP + 'NotationData'
+
+    def gen(repo):
+        r = scn.Run(repo, cls, 'value_bytearray', label)
+        ex, st = r.ex, r.st
+        VAL = z3.Const('NOTATION_VALUE', B)
+        val = ex.new_buf(st, VAL)
+        fl = 0x80 if readable else 0
+        r.set('sp', '_flags', ex.new_list(st, [E.VInt(fl, enum='pgpy.constants.NotationDataFlags') if fl else E.VInt(0), E.VInt(0), E.VInt(0), E.VInt(0)]))
+        r.set('sp', '_value', E.VStr(s=''))
+        for pi, (s, v) in enumerate(r.call(E.VObj(cls, 'sp'), [val])):
+            if isinstance(v, E.Raise):
+                r.oblige(s, 'safety(%s)/p%d' % (v.exc.split(':')[0], pi), z3.BoolVal(False), v.where)
+                continue
+            held = s.heap.get(('sp', '_value'))
+            if readable:
+                r.oblige(s, 'text-with-one-code-point-per-octet/p%d' % pi,
+                         z3.And(z3.BoolVal(isinstance(held, E.VStr) and bool(getattr(held, 'cp', False))), held.z == VAL) if isinstance(held, E.VStr) and held.z is not None else z3.BoolVal(False))
+            else:
+                isbuf = isinstance(held, (E.VBuf, E.VBytes))
+                r.oblige(s, 'same-octets/p%d' % pi, ex.seq(held, s) == VAL if isbuf else z3.BoolVal(False))
+                r.oblige(s, 'in-a-buffer-that-is-not-the-caller\'s/p%d' % pi, z3.BoolVal(isbuf and not (isinstance(held, E.VBuf) and held.cell == val.cell)))
+            r.oblige(s, 'caller\'s-buffer-untouched/p%d' % pi, s.heap[val.cell] == VAL)
+        return r.result()
+    return Scenario(label, cls + '.value_bytearray', gen, props=('C02', 'C05'))
+
+
+_base_scn_oc = scenarios
+
+
+def scenarios():
+    return _base_scn_oc() + [option_collection_is_copied('FlagList', 'flags_list', 'list'), option_collection_is_copied('ByteFlag', 'flags_seq', 'set'),
+                             option_collection_is_copied('ByteFlag', 'flags_seq', 'list'), notation_value_is_copied(False), notation_value_is_copied(True)]
